@@ -116,6 +116,7 @@ pid_t __wrap_waitpid(pid_t pid, int* status, int options) {
       if (!any) { errno = ECHILD; return -1; } if (options & WNOHANG) return 0; netBlock("waitpid", -1); } }
   Child* c = findChild(pid);
   if (!c || c->reaped) { errno = ECHILD; return -1; }
+  if (!c->exited && (options & WUNTRACED) && choose(K_EINTR, 2)) { fault("child_stopped"); logEvent("waitpid_stopped", pid); if (status) *status = (SIGSTOP << 8) | 0x7f; return pid; }   /* job control stops the child for a while: only a caller that asked for stopped children hears of it */
   if (!c->exited && !(options & WNOHANG) && choose(K_EINTR, 2)) { fault("eintr_waitpid"); logEvent("waitpid_eintr", pid); errno = EINTR; return -1; }   /* a handled signal interrupts a waitpid that would block; the child stays waitable */
   while (!c->exited) { if (options & WNOHANG) return 0; netBlock("waitpid", -1); }
   c->reaped = true; if (status) *status = c->status;
